@@ -42,6 +42,11 @@ type CfgScript struct {
 
 // KerberosFiles writes a keytab and a krb5.conf usable by the gateway.
 func (r *Runner) KerberosFiles(kdcs []string) (kt string, conf string, err error) {
+	return r.KerberosFilesRealms(kdcs, nil)
+}
+
+// KerberosFilesRealms: like KerberosFiles, with a second configured realm OTHER.TEST (KDCs other) when other is not nil.
+func (r *Runner) KerberosFilesRealms(kdcs, other []string) (kt string, conf string, err error) {
 	k := keytab.New()
 	if err = k.AddEntry("HTTP/gw.example.org", "EXAMPLE.ORG", "keytab-password", time.Now(), 1, 18); err != nil {
 		return
@@ -65,6 +70,13 @@ func (r *Runner) KerberosFiles(kdcs []string) (kt string, conf string, err error
 		sb.WriteString("  kdc = " + h + "\n")
 	}
 	sb.WriteString(" }\n")
+	if other != nil {
+		sb.WriteString(" OTHER.TEST = {\n")
+		for _, h := range other {
+			sb.WriteString("  kdc = " + h + "\n")
+		}
+		sb.WriteString(" }\n")
+	}
 	err = os.WriteFile(conf, []byte(sb.String()), 0600)
 	return
 }
